@@ -605,3 +605,68 @@ Proof.
   destruct (fold_left _ (seq 0 (s_dim s)) ([], t1)) as [ds2 t2].
   cbn [fst snd] in *. destruct Hloop as [Hd He]. subst ds2. split; [reflexivity|exact He].
 Qed.
+
+(* ------------------------------------------------------------------ re-initialisation of ONE object *)
+From SG Require Import Model.CombiSchemeObj.
+
+(* init_adaptive_combi_scheme on ANY object state (initialised before or not, whatever its sets and levels were): the
+   result depends on the dimension and the two arguments only - nothing of the previous state survives.  If an
+   attribute were added to the class that init_adaptive_combi_scheme does not reset, `conc` would have to say what it
+   holds and this equality would fail. *)
+Theorem gen_reinit_is_fresh o lmax lmin : 1 <= f_dim o ->
+  CombiScheme_init_adaptive_combi_scheme o lmax lmin =
+    match init_scheme (Z.to_nat (f_dim o)) lmax lmin with
+    | Some s => Some (tt, conc s)
+    | None => None
+    end.
+Proof.
+  intros H. destruct o as [x1 x2 x3 x4 x5 x6 x7]. cbn [f_dim] in H.
+  unfold CombiScheme_init_adaptive_combi_scheme, init_scheme.
+  change (fun x y => x >=? y) with Z.geb.
+  destruct (lmax >=? lmin); [|reflexivity].
+  destruct (lmax >=? 0); [|reflexivity].
+  destruct (lmin >=? 0); [|reflexivity].
+  py_step. cbn [f_dim set_f_lmin set_f_lmax set_f_initialized_adaptive].
+  rewrite gen_init_active_index_set by exact H. py_step.
+  cbn [f_dim set_f_active_index_set]. rewrite gen_init_old_index_set by exact H. py_step.
+  unfold conc. cbn. rewrite Z2Nat.id by lia. reflexivity.
+Qed.
+
+(* two objects of the same dimension are indistinguishable after the same (successful) initialisation *)
+Corollary gen_reinit_independent o o' lmax lmin : 1 <= f_dim o -> f_dim o = f_dim o' ->
+  CombiScheme_init_adaptive_combi_scheme o lmax lmin = CombiScheme_init_adaptive_combi_scheme o' lmax lmin.
+Proof. intros H E. rewrite !gen_reinit_is_fresh by lia. rewrite E. reflexivity. Qed.
+
+(* init_full_grid = the model's init_full_scheme, again from any previous state *)
+Lemma full_loop lmax lmin dim (H : 1 <= dim) : forall (l : list Z) o, f_dim o = dim ->
+  py_for l (fun i self =>
+      bindE (CombiScheme_init_active_index_set lmax (lmin + i) (f_dim self)) (fun t =>
+        @Nxt CombiScheme_t (unit * CombiScheme_t) (set_f_old_index_set self (py_set_union (f_old_index_set self) t)))) o =
+  Nxt (set_f_old_index_set o
+         (fold_left (fun old i => set_union old (init_active_index_set lmax (lmin + i) (Z.to_nat dim))) l (f_old_index_set o))).
+Proof.
+  induction l as [|i l IH]; intros o Hd.
+  - destruct o as [x1 x2 x3 x4 x5 x6 x7]; reflexivity.
+  - cbn [py_for fold_left]. rewrite Hd, gen_init_active_index_set by exact H. cbn [bindE].
+    rewrite IH by (destruct o as [x1 x2 x3 x4 x5 x6 x7]; exact Hd). rewrite py_set_union_eq. destruct o as [x1 x2 x3 x4 x5 x6 x7]; reflexivity.
+Qed.
+
+Theorem gen_init_full_grid o lmax lmin : 1 <= f_dim o ->
+  CombiScheme_init_full_grid o lmax lmin =
+    match init_full_scheme (Z.to_nat (f_dim o)) lmax lmin with
+    | Some s => Some (tt, conc s)
+    | None => None
+    end.
+Proof.
+  intros H. destruct o as [x1 x2 x3 x4 x5 x6 x7]. cbn [f_dim] in H.
+  unfold CombiScheme_init_full_grid, init_full_scheme.
+  change (fun x y => x >=? y) with Z.geb.
+  destruct (lmax >=? lmin); [|reflexivity].
+  destruct (lmax >=? 0); [|reflexivity].
+  destruct (lmin >=? 0); [|reflexivity].
+  py_step. cbn [f_dim set_f_lmin set_f_lmax set_f_initialized_adaptive set_f_active_index_set].
+  rewrite gen_init_old_index_set by exact H. py_step.
+  match goal with |- context [py_for ?l ?body ?v0] =>
+    rewrite (full_loop lmax lmin (f_dim v0) H l v0 eq_refl) end.
+  py_step. unfold conc. cbn. rewrite Z2Nat.id by lia. reflexivity.
+Qed.
